@@ -69,6 +69,7 @@ func c05Run(in V) V {
 		w = bufiox.NewBytesWriter(&target)
 	}
 	var regions [][]byte
+	var kept, keptCopy [][]byte
 	stale := 0
 	var out []V
 	for _, opv := range ops {
@@ -131,6 +132,10 @@ func c05Run(in V) V {
 			} else if called {
 				// the fake sink published what it received into *target
 				sinkv = Ls(Bs(target))
+				// ... and what was published is the caller's from now on: later rounds through the same
+				// writer must not change it
+				kept = append(kept, target)
+				keptCopy = append(keptCopy, append([]byte(nil), target...))
 			}
 		case 4:
 			_ = w.WrittenLen()
@@ -138,6 +143,11 @@ func c05Run(in V) V {
 			panic("c05: bad op")
 		}
 		out = append(out, Ls(I(ecls), I(w.WrittenLen()), sinkv))
+	}
+	for i := range kept {
+		if string(kept[i]) != string(keptCopy[i]) {
+			return Ls(VL(out), I(-95)) // an earlier published target was overwritten by a later round
+		}
 	}
 	return Ls(VL(out), Bs(target))
 }
